@@ -759,6 +759,99 @@ pub fn run(ctx: Arc<Ctx>) {
 			ctx.violation("TileConverter::process_stream: free-running run pairs a tile with another tile's result", &format!("{mismatches} of {total} tiles wrong; first: {f}"), json!({"op": "process_stream-sample"}));
 		}
 	}
+	// in-tree users of the stream machinery whose per-tile work is not harness-supplied (not gated, deterministic
+	// inputs): every streamed tile must carry the payload of its own coordinate
+	{
+		use crate::memsource::{MemSource, PlainSource, TileMap};
+		use versatiles_container::{TilesConvertReader, TilesConverterParameters};
+		use versatiles_core::types::{TileBBox, TileCompression, TileFormat, TilesReaderTrait};
+		let spell = |k: &(u8, u32, u32)| format!("payload of {}/{}/{}", k.0, k.1, k.2).into_bytes();
+		// every subset of a 6x2 grid at z=4 (holes before, between and after tiles in a row), plus a wide sparse row
+		let mut sets: Vec<TileMap> = vec![];
+		for mask in 1u32..(1 << 12) {
+			let mut t = TileMap::new();
+			for i in 0..12u32 {
+				if mask >> i & 1 == 1 {
+					let k = (4u8, 3 + i % 6, 5 + i / 6);
+					t.insert(k, spell(&k));
+				}
+			}
+			sets.push(t);
+		}
+		let mut wide = TileMap::new();
+		for x in (0..600u32).filter(|x| x % 7 != 3 && x % 11 != 0) {
+			let k = (10u8, x, 77u32);
+			wide.insert(k, spell(&k));
+		}
+		sets.push(wide);
+		let (mut n, mut bad) = (0u64, 0u64);
+		let mut first: Option<String> = None;
+		for t in &sets {
+			let src = PlainSource(MemSource::new("plain", t.clone(), TileFormat::BIN, TileCompression::Uncompressed));
+			let z = t.keys().next().unwrap().0;
+			let bbox = if z == 4 { TileBBox::new(4, 2, 4, 9, 7).unwrap() } else { TileBBox::new(10, 0, 76, 700, 78).unwrap() };
+			let out: Vec<(TileCoord3, Blob)> = rt.block_on(async { src.get_bbox_tile_stream(bbox).await.collect().await });
+			n += 1;
+			let mut seen = std::collections::BTreeSet::new();
+			let mut ok = out.len() == t.len();
+			for (c, b) in &out {
+				ok &= seen.insert((c.z, c.x, c.y)) && t.get(&(c.z, c.x, c.y)).map(|v| v.as_slice()) == Some(b.as_slice());
+			}
+			if !ok {
+				bad += 1;
+				first.get_or_insert_with(|| format!("source with tiles {:?}: streamed {:?}", t.keys().take(8).collect::<Vec<_>>(), out.iter().take(8).map(|(c, b)| (c.x, c.y, String::from_utf8_lossy(b.as_slice()).to_string())).collect::<Vec<_>>()));
+			}
+		}
+		if let Some(f) = first {
+			ctx.violation("default box stream of a reader pairs a tile with another coordinate, loses or repeats one", &format!("{bad} of {n} sparse sources; first: {f}"), json!({"op": "default-stream"}));
+		}
+		// converting reader: flags x recompression on the stream path
+		let mut base = TileMap::new();
+		for x in 0..8u32 {
+			for y in 0..8u32 {
+				if (x * 3 + y) % 5 != 0 {
+					let k = (3u8, x, y);
+					base.insert(k, spell(&k));
+				}
+			}
+		}
+		let mut cbad: Option<String> = None;
+		let mut cn = 0u64;
+		for flags in 0..4u8 {
+			for (target, force) in [(None, false), (Some(TileCompression::Gzip), false), (Some(TileCompression::Brotli), true), (None, true)] {
+				let mut cp = TilesConverterParameters::new_default();
+				cp.flip_y = flags & 1 != 0;
+				cp.swap_xy = flags & 2 != 0;
+				cp.tile_compression = target;
+				cp.force_recompress = force;
+				let src = MemSource::new("m", base.clone(), TileFormat::BIN, TileCompression::Uncompressed);
+				let Ok(conv) = TilesConvertReader::new_from_reader(Box::new(src), cp) else { continue };
+				let outc = conv.get_parameters().tile_compression;
+				let out: Vec<(TileCoord3, Blob)> = rt.block_on(async { conv.get_bbox_tile_stream(TileBBox::new_full(3).unwrap()).await.collect().await });
+				cn += 1;
+				let mut ok = out.len() == base.len();
+				for (c, b) in &out {
+					// pre-image: undo swap, then flip
+					let (mut x, mut y) = (c.x, c.y);
+					if flags & 2 != 0 {
+						std::mem::swap(&mut x, &mut y);
+					}
+					if flags & 1 != 0 {
+						y = 7 - y;
+					}
+					let plain = crate::codec::decode_with(crate::containers::comp_id(outc), b.as_slice()).unwrap_or_default();
+					ok &= plain == spell(&(3, x, y));
+				}
+				if !ok && cbad.is_none() {
+					cbad = Some(format!("flip_y={} swap_xy={} target={target:?} force={force}", flags & 1 != 0, flags & 2 != 0));
+				}
+			}
+		}
+		if let Some(f) = cbad {
+			ctx.violation("converting reader's stream pairs a tile with another coordinate than its mapping says", &format!("first failing configuration: {f}"), json!({"op": "converter-stream"}));
+		}
+		ctx.extra("in_tree_users", json!({"default_box_stream_sparse_sources": n, "converter_stream_configurations": cn}));
+	}
 	ctx.extra("large_stream_families", json!({"sizes": big, "disciplines": ["reverse", "rotate", "evens-then-odds"], "note": "fixed deterministic families, not exhaustive"}));
 	ctx.extra("not_covered", json!("the in-tree users TileConverter::process_stream and from_debug are not gated (their callbacks are not harness-supplied); they are covered functionally under a real multi-thread runtime by C04 and C02"));
 	ctx.exhaustive(all_exhaustive);
